@@ -23,7 +23,7 @@ PROFILE = {"ops": {"create": 6, "register": 6, "createKeyPair": 2, "deriveKey": 
                    "getAttributes": 5, "getAttributeList": 3, "activate": 4, "revoke": 3, "destroy": 3,
                    "encrypt": 2, "decrypt": 1, "sign": 1, "signatureVerify": 1, "mac": 2,
                    "setAttribute": 2, "modifyAttribute": 3, "deleteAttribute": 3, "query": 1},
-           "groups": 0.45, "header_extras": 0.1, "long_users": 0.12}
+           "groups": 0.45, "header_extras": 0.1, "long_users": 0.12, "twins": 0.15}
 MONITORS = [M.mon_c03]
 
 
